@@ -1,6 +1,7 @@
 package scen
 
 import (
+	"math"
 	"fmt"
 	"sort"
 	"strings"
@@ -61,6 +62,9 @@ func window(n int, kind string, p int, amount *int) (lo, hi int) {
 			a = *amount
 		}
 	}
+	if a > n {
+		a = n // a window is never longer than the listing (and the sums below cannot overflow)
+	}
 	switch kind {
 	case "gt", "gte":
 		lo = p
@@ -119,7 +123,7 @@ func OracleEventLog(prop string) func(w *Writers, hist []string) []explore.Viola
 				last[id] = e.GetClock().GetTime()
 			}
 			n := len(L)
-			amounts := []*int{nil, intp(0), intp(1), intp(2), intp(n), intp(n + 3), intp(-1)}
+			amounts := []*int{nil, intp(0), intp(1), intp(2), intp(n), intp(n + 3), intp(-1), intp(math.MaxInt), intp(math.MaxInt - n), intp(math.MinInt)}
 			type q struct {
 				kind string
 				p    int
